@@ -87,6 +87,7 @@ fn main() {
         "C09" => run_property(props::c09::C09, args),
         "C11" => run_property(props::c11::C11, args),
         "C12" => run_property(props::c12::C12, args),
+        "C13" => run_property(props::c13::C13, args),
         "C15" => run_property(props::c15::C15, args),
         "C16" => run_property(props::c16::C16, args),
         "C17" => run_property(props::c17::C17, args),
